@@ -61,6 +61,7 @@ def _traffic(args):
     frames, unauthenticated connections, size-limited requests."""
     wid, seed, nreq = args
     common.scratch()
+    S.bound_rsa()          # damaged frames may ask for absurd RSA key sizes
     r = random.Random(seed)
     drv = D.EngineDriver(intern=E.new_interner())
     cert = S.make_cert(1, "client")
